@@ -134,7 +134,11 @@ def check_invariant(ctx, num=3):
     ok = False
     d = f"{[stmt_text(s) for s in st]}"
     if len(st) == 1:
-        v = st[0].value
+        from ..util import single_defs as _sd4
+        v = norm.subst(st[0].value, _sd4(r))        # `snapshot = [usage for c in active]; consumed = sum(snapshot)`: the local is looked through
+        if isinstance(v, ast.Call) and norm.call_name(v) in ("sum", "fsum") and len(v.args) >= 1 and isinstance(v.args[0], ast.Call) and norm.call_name(v.args[0]) in ("list", "tuple") \
+                and len(v.args[0].args) == 1 and isinstance(v.args[0].args[0], (ast.GeneratorExp, ast.ListComp)):
+            v = ast.Call(func=v.func, args=[v.args[0].args[0]] + v.args[1:], keywords=v.keywords)
         if isinstance(v, ast.Call) and norm.call_name(v) in ("sum", "fsum") and len(v.args) >= 1 and isinstance(v.args[0], (ast.GeneratorExp, ast.ListComp)):
             ge = v.args[0]
             if len(ge.generators) == 1 and not ge.generators[0].ifs and isinstance(ge.generators[0].target, ast.Name) \
